@@ -7,6 +7,28 @@ HERE = os.path.dirname(os.path.abspath(__file__))
 ALL = ["C%02d" % i for i in range(1, 18)]
 
 CHECKS = {
+    "C01": dict(
+        category="model_checking",
+        text="Refinement Micro(control store of the working tree) => Isa.tla checked by TLC at instruction boundaries: equality of the whole abstract "
+             "state for every one-byte opcode, every two-byte form, address classes across the RAM/I-O boundary and supervision bands (thorough: unary "
+             "group all values x flags, register-register group incl. MUL/DIV all 65 536 pairs x carry). The micro model is bound to the code by "
+             "whole-domain equality of decode, next-address and ALU functions and by validating random instruction sequences of the real machine per "
+             "instruction (TraceIsa, all of RAM and registers compared) and per clock edge (TraceMachine, every private field).",
+        design_ref="DESIGN.md section 3 C01, Appendix A",
+        note="Trusted: TLC; Isa.tla as the reading of the instruction-set definition; verif hooks. Unspecified (only no-crash): MUL/DIV with PC as destination, "
+             "second opcode bytes 0x02-0x0F. Register-pair coverage beyond the canonical pair uses boundary value sets.",
+        technique="TLC refinement check Micro=>Isa from generated boundary states + whole-domain function conformance + TLA+ trace validation (ISA level and edge level)",
+    ),
+    "C15": dict(
+        category="model_checking",
+        text="The same refinement BFS with the invariant CostOk: clock edges between boundaries = Isa!cyc (1 + words of the form + one wait per access "
+             "to an address <= 0xEF), over all opcode shapes and address classes (thorough: all MUL/DIV operand pairs); every instruction of random "
+             "sequences executed by the real machine is validated against the same cost function, with the state re-synchronised from the log so that "
+             "only the cost is judged.",
+        design_ref="DESIGN.md section 3 C15, Appendix A",
+        note="Trusted: TLC; the per-form word counts in Isa.tla (read off the control store listing; a change of the control store that alters a path length is reported).",
+        technique="TLC invariant on the Micro=>Isa refinement BFS (edge counter history variable) + trace validation of per-instruction edge counts",
+    ),
     "C09": dict(
         category="model_checking",
         text="TLC explores the complete abstract control graph (maddr, IR) of the control store extracted from the working tree with every "
